@@ -192,3 +192,15 @@ M("tls-no-check-time-always", ["C09"], BTLS, "    if (!check_time)\n\tadditional
 M("tls-crl-check-leaf-only", ["C09"], BTLS, "\tadditional_flags |= (X509_V_FLAG_CRL_CHECK|X509_V_FLAG_CRL_CHECK_ALL);", "\tadditional_flags |= X509_V_FLAG_CRL_CHECK;")
 M("tls-crl-without-auth-accepted", ["C09"], BTLS, "    if (!bts->tls_auth && bts->check_crl) {", "    if (0 && !bts->tls_auth && bts->check_crl) {")
 M("tls-verify-result-ignored-on-client(equivalent:handshake-fails-first)", [], BTLS, "\tif (err == X509_V_OK)\n\t    LOG_TLS_CERT_OK(s);", "\tif (err == X509_V_OK || (bts->tls_client && err == X509_V_ERR_CERT_HAS_EXPIRED))\n\t    LOG_TLS_CERT_OK(s);")
+
+# ---- C18
+CTXS = "libxcm/tp/tls/ctx_store.c"
+M("ctx-hash-ignores-inode-and-mtime", ["C18"], CTXS, "    EVP_DigestUpdate(ctx, &statbuf.st_ino, sizeof(statbuf.st_ino));\n", "")
+M("ctx-hash-ignores-mtime-nsec", ["C18"], CTXS, "    EVP_DigestUpdate(ctx, &statbuf.st_mtim.tv_nsec,\n\t\t     sizeof(statbuf.st_mtim.tv_nsec));\n", "")
+M("ctx-hash-ignores-mtime", ["C18"], CTXS, "    EVP_DigestUpdate(ctx, &statbuf.st_mtim.tv_sec,\n\t\t     sizeof(statbuf.st_mtim.tv_sec));\n    EVP_DigestUpdate(ctx, &statbuf.st_mtim.tv_nsec,\n\t\t     sizeof(statbuf.st_mtim.tv_nsec));\n", "")
+M("ctx-hash-does-not-follow-symlink", ["C18"], CTXS, "    if (!follow && (statbuf.st_mode & S_IFMT) == S_IFLNK)\n\treturn do_hash_file(file, ctx, true, log_ref);", "")
+M("ctx-hash-no-item-tags", ["C18"], CTXS, "    EVP_DigestUpdate(ctx, &item->type, sizeof(item->type));\n", "")
+M("ctx-hash-skips-tc", ["C18"], CTXS, "    if (hash_item(tc, ctx, log_ref) < 0)\n\tgoto err;\n", "")
+M("ctx-store-never-frees", ["C18"], CTXS, "\tSSL_CTX_free(entry->ssl_ctx);", "\t;")
+M("tls-cert-dir-env-cached", ["C18"], BTLS, "    const char *cert_dir = getenv(TLS_CERT_ENV);\n    return cert_dir != NULL ? cert_dir : DEFAULT_CERT_DIR;", "    static const char *cert_dir;\n    if (cert_dir == NULL)\n\tcert_dir = getenv(TLS_CERT_ENV);\n    return cert_dir != NULL ? cert_dir : DEFAULT_CERT_DIR;")
+M("ctx-unreadable-errno-leaks", ["C18"], CTXS, "\tif (item_load(cert, &cert_data) < 0) {\n\t    errno = EPROTO;\n\t    goto out;\n\t}", "\tif (item_load(cert, &cert_data) < 0) {\n\t    goto out;\n\t}")
